@@ -23,6 +23,14 @@ type Iface struct {
 	Kind  string   `json:"kind"` // veth | tun
 	Addrs []string `json:"addrs"` // CIDR, in the order they are added (IPv4 and/or IPv6)
 	NoV6  bool     `json:"disable_ipv6"`
+	MAC   string   `json:"mac,omitempty"` // veth only: fixed hardware address
+}
+
+// Inject: a frame that arrives on an interface right after the n-th (1-based) non-IPv6 frame sx sent through it.
+type Inject struct {
+	Iface string `json:"iface"`
+	After int    `json:"after"`
+	Hex   string `json:"hex"`
 }
 
 type Route struct {
@@ -34,6 +42,7 @@ type Route struct {
 type Scenario struct {
 	Ifaces   []Iface  `json:"ifaces"`
 	Routes   []Route  `json:"routes"`
+	Inject   []Inject `json:"inject"`
 	SxBin    string   `json:"sx_bin"`
 	SxArgs   []string `json:"sx_args"`
 	SxStdin  string   `json:"sx_stdin"`
@@ -54,6 +63,7 @@ type Frame struct {
 }
 
 type Report struct {
+	Injected   int         `json:"injected"`
 	SetupError string      `json:"setup_error,omitempty"`
 	Ifaces     []IfaceInfo `json:"ifaces"`
 	Frames     []Frame     `json:"frames"`
@@ -142,6 +152,17 @@ func main() {
 		}
 		mu.Unlock()
 	}
+	byIface := map[string]map[int][][]byte{}
+	for _, in := range sc.Inject {
+		b, err := hex.DecodeString(in.Hex)
+		if err != nil {
+			continue
+		}
+		if byIface[in.Iface] == nil {
+			byIface[in.Iface] = map[int][][]byte{}
+		}
+		byIface[in.Iface][in.After] = append(byIface[in.Iface][in.After], b)
+	}
 	var closers []func()
 	defer func() { _ = closers }()
 	for i, ifc := range sc.Ifaces {
@@ -153,6 +174,11 @@ func main() {
 			}
 			// the peer end never talks IPv6 itself
 			os.WriteFile("/proc/sys/net/ipv6/conf/"+peer+"/disable_ipv6", []byte("1"), 0o644)
+			if ifc.MAC != "" {
+				if fail(ip("link", "set", ifc.Name, "address", ifc.MAC)) {
+					return
+				}
+			}
 			if fail(ip("link", "set", peer, "up")) {
 				return
 			}
@@ -176,6 +202,7 @@ func main() {
 				defer wg.Done()
 				defer syscall.Close(fd)
 				buf := make([]byte, 65536)
+				seen := 0
 				for {
 					select {
 					case <-done:
@@ -191,6 +218,16 @@ func main() {
 						continue
 					}
 					add(name, true, buf[:n])
+					if n >= 14 && !(buf[12] == 0x86 && buf[13] == 0xdd) {
+						seen++
+						for _, in := range byIface[name][seen] {
+							if syscall.Sendto(fd, in, 0, &syscall.SockaddrLinklayer{Protocol: htons(syscall.ETH_P_ALL), Ifindex: pi.Index}) == nil {
+								mu.Lock()
+								rep.Injected++
+								mu.Unlock()
+							}
+						}
+					}
 				}
 			}()
 		case "tun":
@@ -204,6 +241,7 @@ func main() {
 			go func() {
 				defer wg.Done()
 				buf := make([]byte, 65536)
+				seen := 0
 				for {
 					n, err := f.Read(buf)
 					if err != nil {
@@ -212,6 +250,16 @@ func main() {
 						continue
 					}
 					add(name, false, buf[:n])
+					if n > 0 && buf[0]>>4 == 4 {
+						seen++
+						for _, in := range byIface[name][seen] {
+							if _, err := f.Write(in); err == nil {
+								mu.Lock()
+								rep.Injected++
+								mu.Unlock()
+							}
+						}
+					}
 				}
 			}()
 		default:
